@@ -345,6 +345,13 @@ func zkHistory(t *testing.T, out *verifh.Out, r *rand.Rand, idx int, mode string
 		zkSettle(0)
 		wg0.Wait()
 	}
+	// the lock record a crashed predecessor ON THE SAME HOST left behind (same hostname, another pid): it is somebody else's
+	if mode == "lock" && r.Intn(6) == 0 {
+		data := fmt.Sprintf(`{"hostname":"%s","pid":%d}`, names[0], os.Getpid()+1)
+		if srv.PutRawIfParent("/test/ns/lock", []byte(data)) {
+			h.add(zkEv{"e": "putraw", "path": "/test/ns/lock", "data": data})
+		}
+	}
 	h.add(zkEv{"e": "mark", "what": "initialized"})
 	srv.Mu.Lock()
 	srv.Gate = mode != "seq"
